@@ -2649,7 +2649,7 @@ class SparseLogicalVector:
         if axis: raise ValueError('axis is out of bounds for 1-d sparse array')
         set = self.set
         if set:
-            arr = len(set) >= self.size
+            arr = 1. if len(set) >= self.size else 0.
         elif self.size:
             arr = 0.
         else:
